@@ -1,8 +1,8 @@
 package main
 
 import (
-	"go/types"
 	"go/token"
+	"go/types"
 	"strings"
 
 	"golang.org/x/tools/go/ssa"
@@ -207,8 +207,8 @@ func ruleCursorValidated(c *Ctx, r *R) {
 			return 0, false
 		}
 		pf.Edge = func(f *ssa.Function, g guard, q int) (StateSet, bool) {
-		b := g.blk
-		_ = b
+			b := g.blk
+			_ = b
 			if v, val := g.boolVal(); isLostCall(v) {
 				if !val {
 					return ss(q | 1), true
